@@ -35,6 +35,49 @@ func main() {
 	}
 }
 
+// stats - histogram of outcome classes over the executed cases (printed for the evidence file).
+var stats = map[string]int{}
+
+func countCase(c *gh.Case) {
+	r := &c.Res
+	stats["err:"+r.Err.Kind]++
+	if c.Disp && r.Err.Kind == "" {
+		stats["dispatch:"+r.DErr]++
+		if len(r.Ran) > 0 {
+			stats["fn-ran"]++
+		}
+		if r.HelpOf > 0 {
+			stats["help-printed"]++
+		}
+	}
+	if len(r.Warn) > 0 {
+		stats["warned"]++
+	}
+	if len(r.Rest) > 0 {
+		stats["remaining-nonempty"]++
+	}
+	if c.Comp != "" {
+		stats["completion:"+c.Comp]++
+		if len(r.Comps) > 0 {
+			stats["completion-nonempty"]++
+		}
+	}
+	for _, b := range r.Called {
+		if b {
+			stats["some-option-called"]++
+			break
+		}
+	}
+	if r.Panic != "" {
+		stats["panic"]++
+	}
+}
+
+func printStats() {
+	b, _ := json.Marshal(stats)
+	fmt.Printf("STATS %s\n", b)
+}
+
 func writeLine(w *bufio.Writer, v interface{}) {
 	b, err := json.Marshal(v)
 	if err != nil {
@@ -150,6 +193,7 @@ func cmdEnum(args []string) {
 				line, _ := json.Marshal(&c)
 				block = append(block, line)
 				cases++
+				countCase(&c)
 				if c.Res.Raw != baseRaw {
 					nontrivial++
 				}
@@ -175,4 +219,5 @@ func cmdEnum(args []string) {
 	w.Flush()
 	f.Close()
 	fmt.Printf("enum cases=%d nontrivial=%d\n", cases, nontrivial)
+	printStats()
 }
